@@ -80,6 +80,17 @@ def name_pool(rng, frag, size, classes=None):
             cand = cand + str(rng.randint(0, 99))
         if cand not in pool:
             pool.append(cand)
+    if rng.random() < 0.3 and len(pool) >= 2:
+        # a name that differs from another one only in letter case (features are distinct, but
+        # several library comparisons lower-case their operands)
+        base = rng.choice(pool)
+        for variant in (base.upper(), base.swapcase(), base.lower()):
+            if variant != base and variant not in pool and \
+                    (frag != "afm" or variant[:1].isupper()):
+                pool[rng.randrange(len(pool))] = variant
+                if base not in pool:
+                    pool[0 if pool[0] != variant else 1] = base
+                break
     i = 0
     while len(pool) < size:  # tiny classes: pad deterministically
         cand = ("N%d" % i) if frag != "afm" else ("N%d" % i)
@@ -403,7 +414,7 @@ def gen_model(rng, frag, pool, cfg):
             expr = ["f", rng.choice(namelist)]
         else:
             if cfg.get("ctc_shape") == "nnf" and rng.random() < 0.7:
-                expr = gen_nnf(rng, namelist, rng.randint(1, cfg.get("ctc_depth", 2) + 1),
+                expr = gen_nnf(rng, namelist, min(rng.randint(1, cfg.get("ctc_depth", 2) + 1), 4),
                                "NOT" in spec["ops"])
             else:
                 expr = gen_expr(rng, spec, namelist, rng.randint(1, cfg.get("ctc_depth", 2)), cfg)
@@ -415,6 +426,21 @@ def gen_model(rng, frag, pool, cfg):
         if cfg.get("dup_ctc_names") and i > 0 and rng.random() < 0.5:
             cname = ref["ctcs"][rng.randrange(len(ref["ctcs"]))]["n"]
         ref["ctcs"].append({"n": cname, "e": expr})
+    if ref["ctcs"] and rng.random() < cfg.get("p_twin_ctc", 0.2):
+        # the same constraint stated twice, or its twin over names that differ only in case
+        src = rng.choice(ref["ctcs"])
+        twin = copy.deepcopy(src["e"])
+        lower = {}
+        for nm in namelist:
+            lower.setdefault(nm.lower(), []).append(nm)
+        for nm in rm.expr_names(twin):
+            others = [o for o in lower.get(nm.lower(), []) if o != nm]
+            if others:
+                _rename_in_expr(twin, nm, rng.choice(others))
+        tname = src["n"] + "t"
+        while tname in [c["n"] for c in ref["ctcs"]]:
+            tname += "t"
+        ref["ctcs"].append({"n": tname, "e": twin})
     return ref
 
 
@@ -441,6 +467,9 @@ def default_cfg(rng, frag, tier="quick"):
         cfg["dotted_refs"] = rng.random() < 0.5
     if frag == "whole":
         cfg["dup_ctc_names"] = rng.random() < 0.25
+        # the library's CNF conversion (SPLOT export, pseudo-/strict-complex metrics) is
+        # exponential in the nesting of implications: deeper trees only stall the simulation
+        cfg["ctc_depth"] = min(cfg["ctc_depth"], 3)
     cfg["ctc_shape"] = rng.choice(["random", "random", "nnf"])
     k = rng.randint(1, len(spec["groups"]))
     cfg["group_kinds"] = rng.sample(spec["groups"], k)
